@@ -91,9 +91,9 @@ def nontrivial(req, obs):
 
 
 def finding_key(req, obs, detail):
-    """defects of check_layout are keyed by the defect class the harness's reference calculators assign:
-    `accepted/nested-tail-pad`, `accepted/offsets-only`, `rejected/nested-tail-pad` (known on the pinned
-    tree), `accepted/sizes`, `rejected/sizes`, ... (never known)."""
+    """a failure is keyed by the defect class the harness's reference calculators assign
+    (`accepted/nested-tail-pad`, `accepted/offsets-only`, `accepted/sizes`, `rejected/nested-tail-pad`,
+    `rejected/sizes`, ...); none is a known finding since /repo 0414772."""
     m = re.match(r"FAIL:((?:accepted|rejected)/[a-z-]+)", detail or "")
     if m:
         return m.group(1)
@@ -124,24 +124,20 @@ SPEC = {
     "gens": ["LayoutTables"],
     "lean_modules": ["RsslVerif.Thm.C19"],
     "theorems": [T + n for n in [
-        "tables_pinned", "checked_sites",
-        "check_unsound_nested", "check_unsound_offsets", "check_unsound_array",
-        "check_sound_refuted", "reported_true_refuted",
-        "get_matches_spec_partial", "get_matches_spec_flat", "check_decides_sizes_partial",
-        "reported_true_partial", "check_sound_partial", "agree_same_size_and_fields",
-        "vector_free_agree", "check_total", "get_le_spec",
-        "check_accepts_agreeing_partial", "check_rejects_agreeing_witness",
-        "fixed_get_matches_spec", "fixed_check_sound",
+        "tables_pinned", "checked_sites", "get_matches_spec", "check_sound_agree", "check_sound",
+        "reported_sizes_true", "rejected_differs", "check_complete", "check_total", "vector_free_agree",
     ]],
     "harness": "c19",
     "nontrivial": nontrivial,
     "finding_key": finding_key,
     "shrink": shrink,
     "search": search,
-    "level_text": "Proof about the model of get_type_layout/check_layout (op programs re-extracted from the source each "
-                  "run): the desired soundness statement is refuted by kernel-checked witnesses that are replayed on the "
-                  "real compile(); soundness and truth of the reported sizes are proved for the classes of types on which "
-                  "the pinned algorithm is right.",
+    "level_text": "Proof about the model of get_type_layout / offsets_match / check_layout (op programs re-extracted from the "
+                  "source each run): for every element type of the grid, of any size and nesting depth, accepted => the two "
+                  "reference calculators give the same total size and the same byte offset for every field recursively; "
+                  "rejected => the reported sizes are the reference sizes; agreeing types are never rejected; no panic site "
+                  "fires while the sizes fit u32. The model is compared with the real compile() on generated programs and the "
+                  "property's own oracle (independent Rust calculators) is run on the real verdicts.",
     "rule": "requests = (use kind, list of element types); each is turned into an RSSL program, compiled by the real "
             "compile(...validate_layout_consistency(true)) and the verdict + sizes in the message are compared with the "
             "model and judged by two independent reference layout calculators (accepted => same size and same offset of "
@@ -151,8 +147,8 @@ SPEC = {
             "nested arrays), nested structs, enums, 8 use kinds, 1-3 types per program. non-trivial = at least two members",
     "trusted_base": [
         "Lean 4.33 kernel; axioms propext / Classical.choice / Quot.sound only (audited by #print axioms)",
-        "tools/gens/c19.py (LayoutTables: ScalarType::get_size, the arms of get_type_layout as op programs over a fixed "
-        "statement vocabulary, check_layout's top-level adjustments, comparison and checked use sites) — re-run on /repo's "
+        "tools/gens/c19.py (LayoutTables: ScalarType::get_size, the arms of get_type_layout and of offsets_match as op "
+        "programs over a fixed statement vocabulary, check_layout's top-level adjustments, comparison and checked use sites) — re-run on /repo's "
         "working tree every time; a statement outside the vocabulary is a broken obligation",
         "Model/Layout.lean: interpreter of the op programs + the recursion skeleton of get_type_layout; tied to the code by "
         "the correspondence run",
